@@ -6,6 +6,13 @@ from c03_resume import cv_block
 WIDTHS = [0.25, 0.5, 1.0, 2.0]
 
 
+def np_prod(l):
+    p = 1
+    for x in l:
+        p *= x
+    return p
+
+
 def vec(l):
     return " ".join("%r" % x for x in l)
 
@@ -356,6 +363,39 @@ def gen_meta(r, k, T):
         B += ["  wellTempered on", "  biasTemperature %r" % bt]
         tags.append("wt")
         M["wt"], M["bt"] = True, bt
+    files = {}
+    M["eb"] = None
+    # ensemble-biased metadynamics: hills scaled by the inverse target distribution, ramped in during
+    # ebMetaEquilSteps ABSOLUTE steps (cases 4 and 5 of every run, and now and then)
+    if use_grids and not any(v.get("expand") for v in M["vars"]) and (k in (4, 5) or r.random() < 0.15):
+        raw = [r.choice([0.125, 0.25, 0.5, 1.0, 2.0]) for _ in range(int(np_prod([v["nx"] for v in M["vars"]])))]
+        equil = r.choice([0, 3, 6, 10]) if k not in (4, 5) else r.choice([4, 7, 10])
+        fname = "c03_target_%d_%d.dat" % (k, r.randint(0, 10 ** 6))
+        L = ["# %d" % nv]
+        for v in M["vars"]:
+            L.append("# %r %r %d %d" % (v["lower"], v["w"], v["nx"], 0))
+        idx = [[]]
+        for v in M["vars"]:
+            idx = [i + [q] for i in idx for q in range(v["nx"])]
+        for a_, ix in enumerate(idx):
+            if ix[-1] == 0:
+                L.append("")
+            L.append(" " + " ".join("%r" % (v["lower"] + v["w"] * (0.5 + q)) for v, q in zip(M["vars"], ix)) + "  %r" % raw[a_])
+        files[fname] = "\n".join(L) + "\n"
+        B += ["  ebMeta on", "  targetDistFile %s" % fname, "  ebMetaEquilSteps %d" % equil]
+        tags.append("ebMeta")
+        tags.append("equil=%s" % ("0" if equil == 0 else ">0"))
+        # init_ebmeta_params: small values raised to 1e-6 of the maximum, normalised to integral 1, times exp(entropy)
+        d = list(raw)
+        thr = max(d) * (1 / 1000000.0)
+        d = [max(t, thr) for t in d]
+        vol = 1.0
+        for v in M["vars"]:
+            vol *= v["w"]
+        I = vol * sum(d)
+        d = [t * (1.0 / I) for t in d]
+        S = vol * sum(-1.0 * t * math.log(t) for t in d if t > 0)
+        M["eb"] = {"equil": equil, "target": [t * math.exp(S) for t in d]}
     B.append("}")
     p_out = 0.0 if forced else r.choice([0.0, 0.0, 0.2])
     if p_out:
@@ -371,7 +411,7 @@ def gen_meta(r, k, T):
                 pos[t] = [z - 6.0 for z in pos[t]]
     return {"fam": "meta", "tags": tags, "sigtags": ["pending-hills"] if pending else [],
             "collapse": "obs" if pending else None, "natoms": nv, "setup": ["temperature 300.0"], "config": cfg + B,
-            "it0": r.choice([0, 0, 5]), "pos": pos, "model": M}
+            "it0": r.choice([0, 0, 5]), "pos": pos, "model": M, "files": files}
 
 
 # ------------------------------------------------------------------------------------------------ OPES
